@@ -29,6 +29,12 @@ def run(ck, tier, seed):
                 seen.add(sig)
                 ck.mismatch(sig, {"src": c["src"], "error": o["parse"]}, replay={"kind": "lang", "prog": p})
             continue
+        if p["tags"][0] == "random" and (c["out"]["kind"] == "unrep" or c["out"].get("class") == "limit"):
+            # a random program that runs into the iteration limit may take the engine seconds to minutes (a million
+            # iterations of whatever the body does): neither its timing nor a watchdog expiry says anything about the
+            # value it computes; non-termination as such is C04's subject, with dedicated programs
+            ck.cov["limit_bound_random_programs_not_judged"] = ck.cov.get("limit_bound_random_programs_not_judged", 0) + 1
+            continue
         nontriv += 1
         runs = [o.get("interp"), o.get("interp2"), o.get("interp3")]
         m = langrun.compare(c["out"], runs[0])
